@@ -2,6 +2,7 @@ package checks
 
 import (
 	"fmt"
+	"os"
 
 	"verif/internal/instr"
 	"verif/internal/vc"
@@ -14,10 +15,15 @@ func init() {
 		ExtraImports: map[string]string{},
 	}
 	Registry["C10"] = func(c *Ctx) {
-		c.R.Rule = "scenario = (2 or 3 virtual processes, pre-existing lock file in {none, empty, garbage, dead pid, live foreign pid that later dies}, optionally one crash); each process runs the REAL WorkspaceLocker.Lock / critical section / Unlock on one real lock file; every os call of workspace_locker.go is a scheduling point followed by the real system call; all choice sequences with <= d deviations (a crash of a process before any of its file-system steps is a deviation). Non-trivial = at least one process acquired the lock; distinct (scenario, outcome) pairs are counted. Process half (REAL binary, one workspace): build A holds the workspace (its last command waits for a marker), then {nothing, A runs with GOGC=1, `grog clean`, `grog clean --expunge`, A is killed with SIGKILL while its command's shell lives on}, then build B starts: B's command never starts while A's is running (a violation only when the overlap is observed in the trace), B acquires the lock once A released it / is dead."
+		c.R.Rule = "scenario = (2 or 3 virtual processes, pre-existing lock file in {none, empty, garbage, dead pid, live foreign pid that later dies}, optionally one crash); each process runs the REAL WorkspaceLocker.Lock / critical section / Unlock on one real lock file; every os call of workspace_locker.go is a scheduling point followed by the real system call; all choice sequences with <= d deviations (a crash of a process before any of its file-system steps is a deviation). Non-trivial = at least one process acquired the lock; distinct (scenario, outcome) pairs are counted. Process half (REAL binary, one workspace): build A holds the workspace (its last command waits for a marker), then {nothing, A runs with GOGC=1, `grog clean`, `grog clean --expunge`, A is killed with SIGKILL while its command's shell lives on}, then build B starts: B's command never starts while A's is running (a violation only when the overlap is observed in the trace), B acquires the lock once A released it / is dead. Three processes: A's output goes to a 4 KiB pipe whose reader stops for 3 s once it has seen A's summary line (A sits in a write between the end of its execution and its exit), B has been waiting since A's command ran, C starts after A exited: no two commands overlap in the trace, every waiter acquires."
 		c.R.Assume("pids and process liveness come from a virtual process table; the file system is real (tmpfs)", "PID reuse is not modelled", "the 1 s retry timer runs on the bubble's fake clock; 'never acquires' = still waiting after 6 clock advances with nothing else runnable")
 		// process half first (real grog processes on one workspace): it does not depend on the instrumented build
+		if os.Getenv("VERIF_PART") == "stalled-holder" { // development aid: this part alone
+			c10StalledHolder(c)
+			return
+		}
 		c10Processes(c)
+		c10StalledHolder(c)
 		ov := schedOverlay(c, "sched-c10", []string{"internal/locking/workspace_locker.go"}, []string{"vlockos", "c10"})
 		if ov == nil {
 			return
